@@ -6,6 +6,7 @@ import UtpVerif.Driver.Rx
 import UtpVerif.Driver.Segments
 import UtpVerif.Driver.VSock
 import UtpVerif.Driver.Cubic
+import UtpVerif.Driver.Sock
 /-!
 Line-protocol driver: one op per input line (`<component> <op> args…`), one output line per op.
 The Rust harness (`/verif/harness`) executes the same lines on the real code; `tools/check.py`
@@ -21,6 +22,7 @@ structure St where
   segs : Segments := Segments.new 0
   vs : VsSt := {}
   cubic : Option Cubic := none
+  sock : SockSt := {}
   txPos : Nat := 0   -- bytes accepted so far (position-coded payload generator)
 
 def step (st : St) (line : String) : St × String :=
@@ -40,6 +42,7 @@ def step (st : St) (line : String) : St × String :=
   | "seg" :: args => let (r, o) := stepSegs st.segs args; ({ st with segs := r }, o)
   | "vs" :: args => let (r, o) := stepVs st.vs args; ({ st with vs := r }, o)
   | "cubic" :: args => let (r, o) := stepCubic st.cubic args; ({ st with cubic := r }, o)
+  | "sock" :: args => let (r, o) := stepSock st.sock args; ({ st with sock := r }, o)
   | "rtte" :: args => let (r, o) := stepRtte st.rtte args; ({ st with rtte := r }, o)
   | _ => (st, "bad-op")
 
